@@ -91,7 +91,8 @@ def check_plan(d, bad):
         req(bool(s['is_input']) == (s['i'] == 0), 'is_input only on the first stage')
         req(s['item'] == (8 if d['engine'] in ('cr64', 'cr64s') else 4), 'FIFO item size does not match the engine sample type')
         if k == 'half':
-            req(s['pre'] == 2 * s['n'] and s['pre_post'] == 4 * s['n'] and s['preload'] == s['pre'], 'ENV(half-band): pre == 2n, pre_post == 4n, preload == pre')
+            req(s['pre'] >= 2 * s['n'] - (0 if d['engine'] == 'cr32s' else 1) and s['pre_post'] - s['pre'] >= 2 * s['n'] - 1, 'ENV(half-band): context covers the taps on both sides (pre >= 2n-1, post >= 2n-1) (C07)')
+            req(s['preload'] == s['pre'], 'half-band latency is pre-loaded exactly (preload == pre) (C04)')
             req(s['input_size'] > s['pre_post'], 'ENV(half-band): progress (input_size > pre_post) (C08)')
         elif k == 'poly':
             step_int = s['step'] >> 32
@@ -115,7 +116,8 @@ def check_plan(d, bad):
                 req(Fraction(s['oir']) * s['step'] >= Fraction((1 << 32) * max(s['L'], 1)) * (1 - Fraction(1, 1 << 48)), 'output reservation ratio >= L*2^32/step (C07)')
         elif k == 'cubic':
             step_int = s['step'] >> 32
-            req(s['pre'] == 1 and s['pre_post'] == max(3, step_int) and s['preload'] == 1, 'ENV(cubic): pre == 1, pre_post == max(3, step.integer)')
+            req(s['pre'] >= 1 and s['pre_post'] - s['pre'] >= 2 and s['pre_post'] >= step_int, 'ENV(cubic): context covers s[-1..2] and one whole step (C07)')
+            req(s['preload'] == s['pre'], 'cubic latency is pre-loaded exactly (preload == pre) (C04)')
             req(s['input_size'] > s['pre_post'], 'ENV(cubic): progress (input_size > pre_post) (C08)')
             req(s['step'] > 0, 'positive step')
         elif k == 'dft':
